@@ -29,7 +29,12 @@ def programs(R):
     sim = shellgen.simulate(R, 60 if R.tier == "quick" else 800)
     prim = shellgen.dedup(base + foc + sim + shellgen.deep(12) + shellgen.focus(R, "wprog", 2, 4))
     hd = focus(R, "hdprog")
-    hd = rnd.sample(hd, min(len(hd), 900 if R.tier == "quick" else len(hd)))
+    if R.tier == "quick":
+        # a sample of every alternative of the focus (the first derivation step names it)
+        groups = {}
+        for c in hd:
+            groups.setdefault(c["drv"][0], []).append(c)
+        hd = [c for g in sorted(groups) for c in rnd.sample(groups[g], min(len(groups[g]), 22))]
     extra = []
     for c in [c for c in base if c["dev"] <= 1] + foc + hd + sim:
         if c["ml"] != c["src"]:
